@@ -518,20 +518,25 @@ class Sectionable(BaseObject):
                 "A section with no Document cannot resolve absolute path")
 
         pathlist = path.split("/")
-        if len(pathlist) > 1:
-            if pathlist[0] == "..":
-                found = self.parent
-            elif pathlist[0] == ".":
-                found = self
-            else:
-                found = self._match_iterable(self.sections, pathlist[0])
+        # The steps "." and ".." are navigation steps wherever they occur,
+        # including the last position of a path: get_relative_path returns
+        # ".", ".." or "../.." when the target is the Section itself or
+        # one of its ancestors.
+        if pathlist[0] == "..":
+            found = self.parent
+        elif pathlist[0] == ".":
+            found = self
+        else:
+            found = self._match_iterable(self.sections, pathlist[0])
 
-            if found:
-                return found._get_section_by_path("/".join(pathlist[1:]))
-
+        # Test against None: an existing Section without children is falsy.
+        if found is None:
             raise ValueError("Section named '%s' does not exist" % pathlist[0])
 
-        return self._match_iterable(self.sections, pathlist[0])
+        if len(pathlist) > 1:
+            return found._get_section_by_path("/".join(pathlist[1:]))
+
+        return found
 
     def find(self, key=None, type=None, findAll=False, include_subtype=False):
         """
